@@ -45,6 +45,9 @@ type Record struct {
 	Pad    int      `json:"pad,omitempty"`    // extra payload bytes
 	GapUs  int      `json:"gap_us,omitempty"` // feeder pause before this record (microseconds; virtual: exact)
 	Kids   []Kid    `json:"kids,omitempty"`   // children spawned by a "split" op
+	// NoMatch[i]: the record lacks the field scripted action i is conditioned on (match_fields), so the
+	// processor calls action i for it only while that action is busy (waiting for the next sequential event)
+	NoMatch []bool `json:"no_match,omitempty"`
 }
 
 // Kid is a child of a split.
@@ -90,13 +93,18 @@ func (r *Record) Render(newline bool) []byte {
 		if r.Refuse == "passfalse" {
 			sb.WriteString(`,"pf":true`)
 		}
+		for a := range r.Ops {
+			if a >= len(r.NoMatch) || !r.NoMatch[a] {
+				fmt.Fprintf(&sb, `,"m%d":"1"`, a)
+			}
+		}
 		if len(r.Kids) > 0 {
 			sb.WriteString(`,"kids":[`)
 			for i, k := range r.Kids {
 				if i > 0 {
 					sb.WriteByte(',')
 				}
-				fmt.Fprintf(&sb, `{"id":%d}`, k.ID)
+				fmt.Fprintf(&sb, `{"id":%d,"m0":"1","m1":"1","m2":"1"}`, k.ID)
 			}
 			sb.WriteByte(']')
 		}
@@ -134,6 +142,8 @@ type GenOpts struct {
 	// capacity stays below the number of batches (capacity <= workers-1, workers = 4): then Add never
 	// has to wait for a free batch while holding the mutex.
 	RetryStorm bool
+	// AllowNoMatch: scripted actions carry a match_fields condition and some records do not satisfy it
+	AllowNoMatch bool
 }
 
 // GenPlan draws a plan.
@@ -218,6 +228,7 @@ func GenPlan(t *rapid.T, g GenOpts) Plan {
 					}
 				}
 				r.Ops = append(r.Ops, op)
+				r.NoMatch = append(r.NoMatch, g.AllowNoMatch && rapid.IntRange(0, 6).Draw(t, "nomatch") == 0)
 				st := 0
 				switch rapid.IntRange(0, 9).Draw(t, "stall") {
 				case 0:
